@@ -82,6 +82,7 @@ var vTemplates = [...]struct{ pre, post string }{
 	68: {"a=\"x", "y\"&b\r\nX"},
 	69: {"", "/2.0 200 OK\r\nf:a\r\n\r\n"}, // the version token of a reply (any letter case)
 	70: {"", "/2.0 200 OK\r\nX"},
+	71: {"INVITE sip:a SIP/2.0\r\nm:<a>;expires=6\r\nContact: \"B\" <b>;tag=z", "\r\nm:<c>\r\nl:0\r\n\r\n"}, // three Contact headers
 }
 
 // vTpl builds template t with a window of w symbolic bytes.
